@@ -466,10 +466,11 @@ class Mft(Case):
     env = {"noconj": True}
     timeout_s = 300
 
-    def __init__(self, kind, N, K, dims=(2,), coupling="full"):
-        self.kind, self.N, self.K, self.dims, self.coupling = kind, N, K, tuple(dims), coupling
-        self.id = "H1/mft_%s_N%d_K%s_d%s_%s" % (kind, N, K, "x".join(map(str, dims)), coupling)
-        self.bounds = {"N": N, "dkmax": K, "dims": list(dims), "eom": kind, "coupling": coupling, "symbolic_times": True}
+    def __init__(self, kind, N, K, dims=(2,), coupling="full", layout="C"):
+        self.kind, self.N, self.K, self.dims, self.coupling, self.layout = kind, N, K, tuple(dims), coupling, layout
+        self.id = "H1/mft_%s_N%d_K%s_d%s_%s%s" % (kind, N, K, "x".join(map(str, dims)), coupling, "" if layout == "C" else "_layoutF")
+        self.bounds = {"N": N, "dkmax": K, "dims": list(dims), "eom": kind, "coupling": coupling, "symbolic_times": True,
+                       "initial_state_memory_layout": layout}
         self.env = {"noconj": True, "extra": sym_env_extra()}
 
     def run(self, inp):
@@ -479,6 +480,8 @@ class Mft(Case):
         eom = FieldEom(inp, self.kind, dims)
         systems = [make_system(inp, "s%d" % s, d, N, True, self.coupling) for s, d in enumerate(dims)]
         rho0s = [inp.arr("r%d" % s, (d, d)) for s, d in enumerate(dims)]
+        if self.layout == "F":
+            rho0s = [np.asfortranarray(x) for x in rho0s]
         infl = [lib.Influences(inp, d, K, name="I%d" % s) for s, d in enumerate(dims)]
         mfs = oqupy.MeanFieldSystem(systems, eom)
         del eom.calls[:]
@@ -540,11 +543,16 @@ class Cross(Case):
     env = {"noconj": True}
     timeout_s = 600
 
-    def __init__(self, kind, N, K, dims=(2,), coupling="sparse", record_all=True, som=False):
+    def __init__(self, kind, N, K, dims=(2,), coupling="sparse", record_all=True, som=False, layout="C"):
         self.kind, self.N, self.K, self.dims, self.coupling, self.record_all = kind, N, K, tuple(dims), coupling, record_all
+        # layout "F": the initial states are handed over as column-major (Fortran-ordered) arrays -- the same
+        # logical matrices, e.g. what .T / .conj().T views or np.asfortranarray produce
+        self.layout = layout
         self.som = som       # normal form by z3's sum-of-monomials rewriter first (vf/poly.py), for the larger identities
-        tag = "%s_N%d_K%s_d%s_%s%s" % (kind, N, K, "x".join(map(str, dims)), coupling, "" if record_all else "_last")
+        tag = "%s_N%d_K%s_d%s_%s%s%s" % (kind, N, K, "x".join(map(str, dims)), coupling, "" if record_all else "_last",
+                                       "" if layout == "C" else "_layoutF")
         self.id = ("H1/cdwf_field_time/cross_" if kind not in AUTONOMOUS else "H1/cross_auto/") + tag
+        self.bounds_layout = layout
         if kind not in AUTONOMOUS:
             self.first_timeout_s = 2
         self.bounds = {"N": N, "dkmax": K, "dims": list(dims), "eom": kind, "coupling": coupling, "start_time": 0.5, "dt": 0.25,
@@ -558,6 +566,8 @@ class Cross(Case):
         eom = FieldEom(inp, self.kind, dims)
         systems = [make_system(inp, "s%d" % s, d, N, True, self.coupling) for s, d in enumerate(dims)]
         rho0s = [inp.arr("r%d" % s, (d, d)) for s, d in enumerate(dims)]
+        if self.layout == "F":
+            rho0s = [np.asfortranarray(x) for x in rho0s]
         infl = [lib.Influences(inp, d, K, name="I%d" % s) for s, d in enumerate(dims)]
         mfs = oqupy.MeanFieldSystem(systems, eom)
         # method 1: MeanFieldTempo (real compute)
@@ -866,7 +876,8 @@ def cases(tier):
         Mft("uf", 2, 1), Mft("linear", 3, 2, coupling="none"), Mft("uf", 2, None, coupling="none"),
         Mft("poly", 2, 1, coupling="sparse"),
         # cross-method
-        Cross("polyauto", 2, 1), Cross("poly", 2, 1),
+        Cross("polyauto", 2, 1), Cross("poly", 2, 1), Cross("polyauto", 2, 1, layout="F"),
+        Mft("poly", 2, 1, coupling="sparse", layout="F"),
         H2(None), H2(4), H2D(None, 1), H2D(4, 2),
     ]
     if tier == "thorough":
@@ -881,7 +892,8 @@ def cases(tier):
             Mft("uf", 3, None, coupling="sparse"), Mft("linear", 3, 1), Mft("poly", 3, 2, coupling="sparse"),
             Cross("polyauto", 3, 1, coupling="none"), Cross("polyauto", 3, 2, coupling="none"), Cross("polyauto", 2, 1, dims=(2, 2)),
             Cross("polyauto", 2, 1, record_all=False), Cross("poly", 3, 2, coupling="none"), Cross("polyauto", 3, None, coupling="none"),
-            Cross("polyauto", 2, 2), Cross("polyauto", 2, None),
+            Cross("polyauto", 2, 2), Cross("polyauto", 2, None), Cross("polyauto", 2, 2, dims=(2, 2), layout="F"),
+            Mft("uf", 3, 2, coupling="sparse", layout="F"),
             H2(None, d=3), H2D(None, 2), H2D(4, 1),
         ]
     return cs
